@@ -95,7 +95,7 @@ def main(ctx):
     ctx.extra["banded_model_differs_from_code"] = ctx.classes.get("diag/banded_model_differs", 0)
     # T ---------------------------------------------------------------------------------------
     trace = ctx.path("trace.ndjson")
-    n, maxlen = (4000, 300) if thorough else (600, 100)
+    n, maxlen = (5000, 400) if thorough else (1500, 150)
     ctx.harness(["record", "C09", "--out", trace, "--n", n, "--opt", "maxlen=%d" % maxlen], timeout=900)
     events, rejects = validate_trace(ctx, trace, 1500)
     fam = collections.Counter("%s/%s" % (e["k"], e["sc"]) for e in events)
